@@ -58,8 +58,11 @@ def run(ctx):
         compare(ctx, 'PERM-8', 'Models (reader v%d) names' % version, loc(fi), names, mk_fn('strip', P(sym('cnames', 'm'))), ('m',), vocab={'cnames'}, fns={'strip'},
                 detail_ok='Models.names == strip(names of the convolved file)')
         fl = m.attrs.get('_fluxes') if isinstance(m, Obj) else None
-        ctx.expect(isinstance(fl, Arr) and fl.dims[:1] == ('m',), 'PERM-8', 'Models (reader v%d) fluxes share the model axis with names' % version, loc(fi), 'fluxes axes %s' % (fl.dims if isinstance(fl, Arr) else None,),
-                   'fluxes axes %s' % (fl.dims if isinstance(fl, Arr) else fl,), 'model-axis')
+        if not isinstance(fl, Arr):
+            ctx.undecided('PERM-8', 'Models (reader v%d) fluxes share the model axis with names' % version, loc(fi), 'fluxes not modelled: %r' % (fl,))
+        else:
+            ctx.expect(fl.dims[:1] == ('m',), 'PERM-8', 'Models (reader v%d) fluxes share the model axis with names' % version, loc(fi), 'fluxes axes %s' % (fl.dims,),
+                       'fluxes axes %s' % (fl.dims,), 'model-axis')
     from . import c01
     c01.check_filter_dicts(ctx)
     # hop 3: FitInfo.model_name and the single permutation
